@@ -51,9 +51,11 @@ def ir_execute(prop, descs, wd, nproc=16, timeout=900, trace_module="TraceIR.tla
 
 
 def ir_flow(prop, tier, seed, descs, own, models, level_note_assumptions, t0, hang_is_violation=False,
-            trace_module="TraceIR.tla", trace_cfg="TraceIR.cfg", driver_of=None, extra_cov=None, level="model_checking"):
+            trace_module="TraceIR.tla", trace_cfg="TraceIR.cfg", driver_of=None, extra_cov=None, level="model_checking",
+            extra_stages=None, neg_models=None):
     known = V.load_known()
     wd = V.workdir(prop)
+    stages = [dict(descs=descs, trace_module=trace_module, trace_cfg=trace_cfg, driver_of=driver_of or P.driver_of)] + (extra_stages or [])
     # ---- design models first (cheap): the specification itself satisfies the property for small constants
     mres = []
     for (module, cfg, workers) in models:
@@ -63,9 +65,26 @@ def ir_flow(prop, tier, seed, descs, own, models, level_note_assumptions, t0, ha
         if not r["ok"]:
             log(r["tail"])
             raise V.Infra("design model %s does not hold / did not run: %s" % (cfg, r["violated"]))
+    # negative controls: a configuration with the known design flaw switched on MUST be rejected by TLC (non-vacuity of the model)
+    nres = []
+    for (module, cfg, workers) in (neg_models or []):
+        r = V.run_model(module, os.path.join(V.SPEC, "mc", cfg), workers=workers, name=prop + "_" + cfg)
+        log("[model] %-28s negative control: %s" % (cfg, "violated as expected " + str(r["violated"]) if r["violated"] else "NOT violated"))
+        nres.append(r)
+        if not r["violated"]:
+            raise V.Infra("negative control %s was not rejected by TLC: the design model is vacuous" % cfg)
     # ---- executions of the real code
-    dres, tres = ir_execute(prop, descs, wd, trace_module=trace_module, trace_cfg=trace_cfg, driver_of=driver_of)
-    violations = []   # (rule, desc, tracefile, runidx, hit)
+    dres, tres = [], []
+    for si, st in enumerate(stages):
+        wds = wd if si == 0 else V.workdir("%s_s%d" % (prop, si))
+        d1, t1 = ir_execute(prop, st["descs"], wds, trace_module=st["trace_module"], trace_cfg=st["trace_cfg"], driver_of=st["driver_of"])
+        for x in d1:
+            x["stage"] = si
+        for x in t1:
+            x["stage"] = si
+        dres += d1
+        tres += t1
+    violations = []   # (rule, desc, tracefile, runidx, hit, stage)
     knownhits = []
     others = {}
     cov = {}
@@ -77,12 +96,12 @@ def ir_flow(prop, tier, seed, descs, own, models, level_note_assumptions, t0, ha
         if r["timeout"]:
             ds, n, complete = V.trace_runs(r["file"]) if os.path.exists(r["file"]) else ([], 0, True)
             d = ds[-1] if ds else (r["descs"][0] if r["descs"] else "?")
-            violations.append(("Hang", d, r["file"], len(ds), dict(r="Hang", l=n)))
+            violations.append(("Hang", d, r["file"], len(ds), dict(r="Hang", l=n), r["stage"]))
         elif r["rc"] != 0:
             raise V.Infra("driver %s exited with %d: %s" % (r["binary"], r["rc"], r["err"][-800:]))
     for t in tres:
         if t["status"] != "ok":
-            raise V.Infra("trace %s not consumed by %s (status %s):\n%s" % (t["trace"], trace_module, t["status"], t["stdout_tail"]))
+            raise V.Infra("trace %s not consumed by %s (status %s):\n%s" % (t["trace"], stages[t["stage"]]["trace_module"], t["status"], t["stdout_tail"]))
         ds, n, complete = V.trace_runs(t["trace"])
         nruns += len(ds)
         nstates += t["states"]
@@ -92,7 +111,7 @@ def ir_flow(prop, tier, seed, descs, own, models, level_note_assumptions, t0, ha
         for h in t["hits"]:
             d = ds[h["run"] - 1] if 0 < h["run"] <= len(ds) else "?"
             if rule_matches(h["r"], own):
-                violations.append((h["r"], d, t["trace"], h["run"], h))
+                violations.append((h["r"], d, t["trace"], h["run"], h, t["stage"]))
             else:
                 others[h["r"]] = others.get(h["r"], 0) + 1
             allhits.append(dict(rule=h["r"], desc=d, trace=t["trace"], run=h["run"], line=h["l"]))
@@ -100,18 +119,19 @@ def ir_flow(prop, tier, seed, descs, own, models, level_note_assumptions, t0, ha
         json.dump(allhits, fh, indent=1)
     # ---- confirm every violation by re-running its descriptor alone; known findings are listed, not raised
     confirmed = []
-    for i, (rule, d, tf, runidx, h) in enumerate(violations):
+    for i, (rule, d, tf, runidx, h, stg) in enumerate(violations):
         kf = V.is_known(known, prop, rule, d)
         if kf:
             knownhits.append((rule, d, kf))
             continue
         if len(confirmed) >= 5:
-            confirmed.append((rule, d, tf, runidx, h, None))
+            confirmed.append((rule, d, tf, runidx, h, None, stg))
             continue
         wd2 = V.workdir(prop + "_re%d" % i)
         ok_again = False
+        st = stages[stg]
         try:
-            dres2, tres2 = ir_execute(prop, [d], wd2, nproc=1, timeout=300, trace_module=trace_module, trace_cfg=trace_cfg, driver_of=driver_of)
+            dres2, tres2 = ir_execute(prop, [d], wd2, nproc=1, timeout=300, trace_module=st["trace_module"], trace_cfg=st["trace_cfg"], driver_of=st["driver_of"])
             if rule == "Hang":
                 ok_again = any(r["timeout"] for r in dres2)
             else:
@@ -119,15 +139,15 @@ def ir_flow(prop, tier, seed, descs, own, models, level_note_assumptions, t0, ha
         except Exception as e:  # noqa
             log("[recheck] could not re-run: %s" % e)
         if ok_again:
-            confirmed.append((rule, d, tf, runidx, h, wd2))
+            confirmed.append((rule, d, tf, runidx, h, wd2, stg))
         else:
             log("[recheck] hit %s on '%s' did NOT reproduce on an immediate re-run; not reported" % (rule, d))
             others["unreproduced:" + rule] = others.get("unreproduced:" + rule, 0) + 1
     nviol = 0
-    for i, (rule, d, tf, runidx, h, wd2) in enumerate(confirmed):
+    for i, (rule, d, tf, runidx, h, wd2, stg) in enumerate(confirmed):
         if rule == "Hang" and not hang_is_violation:
             raise V.Infra("driver hang on descriptor %s" % d)
-        path = V.save_replay(prop, i, d, (driver_of or P.driver_of)(d), tf, runidx, [h])
+        path = V.save_replay(prop, i, d, stages[stg]["driver_of"](d), tf, runidx, [h])
         if nviol < 12:
             log("VIOLATION property=%s replay=%s rule=%s desc=%s" % (prop, path, rule, d))
         elif nviol == 12:
@@ -140,9 +160,10 @@ def ir_flow(prop, tier, seed, descs, own, models, level_note_assumptions, t0, ha
     coverage = dict(
         states=mstates + nstates, transitions=mgen + nlines,
         traces_validated_against_impl=nruns,
-        samples=descs[:4],
+        samples=[x for st in stages for x in st["descs"][:3]][:6],
         design_models=[dict(cfg=m["cfg"], states=m["states"], generated=m["generated"], wall_s=round(m["wall"], 1)) for m in mres],
-        trace_events=nlines, trace_spec=trace_module, monitors=sorted(own),
+        negative_controls=[dict(cfg=m["cfg"], rejected=m["violated"]) for m in nres],
+        trace_events=nlines, trace_spec=sorted(set(st["trace_module"] for st in stages)), monitors=sorted(own),
         coverage_counters=cov, other_rule_hits=others,
         known_findings_seen=[dict(rule=r, descriptor=d) for r, d, _ in knownhits],
         executions=nruns, exhaustive=False)
@@ -162,6 +183,10 @@ COMMON_ASSUME = [
 ]
 
 PROTO = ["G:*", "I:TypeOK", "UnknownEvent*", "UnknownCall", "UnknownRet", "EndedMidCall", "ComputeReturnedMidway", "InitReturnedWithoutInit"]
+
+
+def fn_driver(d):
+    return "drv_fn"
 
 
 def n_of(tier, q, t):
@@ -185,6 +210,9 @@ KRY = ["FacShape", "FacFinite", "KrylovAV", "KrylovVV", "KrylovVf", "KrylovBeta"
        "ExpandBasisFailed", "ExpandSeed", "G:CompressH", "G:CompressV", "G:FacBegin", "G:FacStep", "G:FacDone", "G:FacInit", "G:ExpandBasis", "I:KInRange"]
 
 
+IR_NEG = [("MC_IR.tla", "IR_neg_refresh.cfg", 4), ("MC_IR.tla", "IR_neg_resume.cfg", 4)]
+
+
 def types_for(tier):
     return ("d", "d", "f", "l") if tier == "thorough" else ("d", "d", "d", "f", "l")
 
@@ -193,14 +221,14 @@ def check_C01(tier, seed, t0):
     rng = random.Random(2000 + seed)
     descs = P.herm_basic(rng, n_of(tier, 120, 2500), types=types_for(tier), meas=1, nmax=n_of(tier, 40, 120))
     models = [("MC_IR.tla", "IR_quick.cfg" if tier == "quick" else "IR_design.cfg", 8)]
-    return ir_flow("C01", tier, seed, descs, HERM_NUM, models, COMMON_ASSUME, t0)
+    return ir_flow("C01", tier, seed, descs, HERM_NUM, models, COMMON_ASSUME, t0, neg_models=IR_NEG)
 
 
 def check_C02(tier, seed, t0):
     rng = random.Random(3000 + seed)
     descs = P.gen_basic(rng, n_of(tier, 120, 2500), types=types_for(tier), meas=1, nmax=n_of(tier, 36, 100))
     models = [("MC_IR.tla", "IR_quick.cfg" if tier == "quick" else "IR_design.cfg", 8)]
-    return ir_flow("C02", tier, seed, descs, GEN_NUM, models, COMMON_ASSUME, t0)
+    return ir_flow("C02", tier, seed, descs, GEN_NUM, models, COMMON_ASSUME, t0, neg_models=IR_NEG)
 
 
 def check_C07(tier, seed, t0):
@@ -220,12 +248,13 @@ def check_C13(tier, seed, t0):
     rng = random.Random(5000 + seed)
     descs = P.degenerate(rng, n_of(tier, 220, 4000), types=types_for(tier))
     descs += P.herm_basic(rng, n_of(tier, 30, 500), meas=0) + P.gen_basic(rng, n_of(tier, 30, 500), meas=0, ref=0)
-    models = [("MC_IR.tla", "IR_quick.cfg" if tier == "quick" else "IR_design.cfg", 8), ("MC_IR.tla", "IR_live.cfg", 4)]
-    return ir_flow("C13", tier, seed, descs, C13_RULES, models, COMMON_ASSUME, t0, hang_is_violation=True)
-
-
-def fn_driver(d):
-    return "drv_fn"
+    models = [("MC_IR.tla", "IR_quick.cfg" if tier == "quick" else "IR_design.cfg", 8), ("MC_IR.tla", "IR_live.cfg", 4),
+              ("MC_NevAdj.tla", "NevAdj_quick.cfg" if tier == "quick" else "NevAdj_full.cfg", 8)]
+    neg = [("MC_NevAdj.tla", "NevAdj_neg.cfg", 4)]
+    table = dict(descs=["mode=nevadj;nfull=%d;nwell=%d" % ((4, 10) if tier == "quick" else (6, 14))],
+                 trace_module="TraceFn.tla", trace_cfg="TraceFn.cfg", driver_of=fn_driver)
+    return ir_flow("C13", tier, seed, descs, C13_RULES + ["NevAdjRange", "ShiftLoopSafeFromTable", "NevAdjNoIndexAssert"], models, COMMON_ASSUME, t0,
+                   hang_is_violation=True, extra_stages=[table], neg_models=neg)
 
 
 def check_C18(tier, seed, t0):
@@ -257,7 +286,32 @@ def check_C19(tier, seed, t0):
         trace_module="TraceFn.tla", trace_cfg="TraceFn.cfg", driver_of=fn_driver)
 
 
-CHECKS = {"C18": check_C18, "C19": check_C19, "C05": check_C05, "C01": check_C01, "C02": check_C02, "C07": check_C07, "C13": check_C13}
+def check_C06(tier, seed, t0):
+    rng = random.Random(6000 + seed)
+    descs = P.history_descs(rng, n_of(tier, 150, 1500), types=types_for(tier))
+    if tier == "thorough":
+        descs += P.history_descs(rng, 0, exhaustive_for=["sym", "gen", "gencs"], maxlen=3)
+    own = ["SameKeySameDigest", "OperatorUnchanged", "I:InitMakesFresh"]
+    models = [("MC_IR.tla", "IR_quick.cfg" if tier == "quick" else "IR_design.cfg", 8)]
+    return ir_flow("C06", tier, seed, descs, own, models, COMMON_ASSUME + [
+        "digests are 63-bit hashes of the bit patterns of all public results and counters; equal digests are taken as bit-identical results"], t0)
+
+
+def check_C14(tier, seed, t0):
+    rng = random.Random(7000 + seed)
+    if tier == "quick":
+        descs = P.fault_descs(rng, 12, stride=3, rep=1) + P.fault_descs(rng, 6, stride=7, rep=3)
+    else:
+        descs = P.fault_descs(rng, 60, types=types_for(tier), stride=1) + P.fault_descs(rng, 24, stride=1, pairs=True) + P.fault_descs(rng, 12, stride=5, rep=3)
+    own = ["SameException", "FaultCountMatches", "SameKeySameDigest", "G:OpThrows", "NoLeak", "I:InitMakesFresh", "OperatorUnchanged", "Abort",
+           "UndocumentedException", "HeapOverrun", "EndedMidCall"]
+    models = [("MC_IR.tla", "IR_quick.cfg" if tier == "quick" else "IR_design.cfg", 8)]
+    return ir_flow("C14", tier, seed, descs, own, models, COMMON_ASSUME + [
+        "fault positions: every application index of the fault-free run (thorough) or every 3rd/7th with a random offset (quick)"], t0,
+        level="fault_enumeration" if False else "model_checking")
+
+
+CHECKS = {"C06": check_C06, "C14": check_C14, "C18": check_C18, "C19": check_C19, "C05": check_C05, "C01": check_C01, "C02": check_C02, "C07": check_C07, "C13": check_C13}
 
 
 def main():
